@@ -410,9 +410,9 @@ def judge(cid, src, mode, feats, inputs):
     mechs.add(mech)
   if msgs:
     out['verdict'] = 'violation'
-    # Programs of the clean class contain no binding of unknown static type to a variable that also receives typed
-    # bindings and no nonlocal rebinding with another type: the two recorded mechanisms cannot occur in them, so
-    # there a violation is never attributed to a recorded finding.
+    # The mechanism is reported for diagnosis (both recorded C19 findings are repaired; none is open). Programs of
+    # the clean class contain no binding of unknown static type to a variable that also receives typed bindings and
+    # no nonlocal rebinding with another type, so there a violation is never attributed to a mechanism.
     if mode == 'clean':
       out['suspected_mechanisms'] = sorted(str(m) for m in mechs)
     elif None not in mechs and len(mechs) == 1:
